@@ -3,6 +3,8 @@ import PdshVerif.Opt.WcollSpec
 import PdshVerif.Opt.WcollLemmas
 import PdshVerif.Opt.WcollSources
 import PdshVerif.Opt.WcollRefine
+import PdshVerif.Opt.WcollPaths
+import PdshVerif.Opt.WcollAssemble
 
 /-!
 # C10  The target list is assembled faithfully from every source
@@ -34,8 +36,8 @@ open PdshVerif.Opt PdshVerif.Opt.Wcoll
 
 /-- for every file system, include graph (cycles, diamonds, self-includes), source list, stdin and
 environment, the reader never runs out of its fuel `|fs|+1`: reading terminates -/
-theorem include_terminates (mode : LineMode) (fs : FS) (stdin : Str) (wargs : List Str)
-    (env : Option Str) : (assemble mode fs stdin wargs env).starved = false := by
+theorem include_terminates (mode : LineMode) (fs : FS) (stdin : Str) (opts : List Opt)
+    (env : Option Str) : (assembleOpts mode fs stdin opts env).starved = false := by
   have hread : ∀ s f, (readWcoll mode fs s f).1.starved = false := by
     intro s f
     unfold readWcoll
@@ -72,9 +74,9 @@ theorem include_terminates (mode : LineMode) (fs : FS) (stdin : Str) (wargs : Li
     induction args with
     | nil => intro st h; exact h
     | cons a as ih => intro st h; exact ih _ (harg st a h)
-  unfold assemble
-  rw [fold_optargs]
-  have h0 := hfold (wargs.flatMap argsOf) { stdin := stdin } rfl
+  unfold assembleOpts
+  rw [fold_opts]
+  have h0 := hfold (opts.flatMap optArgs) { stdin := stdin } rfl
   simp only
   split
   · exact h0
@@ -179,28 +181,67 @@ theorem file_hosts_spec_partial (mode : LineMode) (fs : FS) (topdir : Str)
     (readStream mode fs [topdir] content).exprs = (WcollSpec.streamHosts fs topdir content).exprs ∧
     (readStream mode fs [topdir] content).nwarn = (WcollSpec.streamHosts fs topdir content).skipped ∧
     (readStream mode fs [topdir] content).fatal = (WcollSpec.streamHosts fs topdir content).error :=
-  let r := readStream_rel mode fs topdir hfs content hc
-  ⟨r.exprs, r.nwarn, r.fatal⟩
+  file_hosts_spec_partial' mode fs topdir hfs content hc
 
 /-- the same for a `^file` source: hosts, skip warnings and error status of the reader are those of
-the specification's `fileHosts`, provided the directory of the command-line file is what the
-specification means by it (a plain path: `dirname`, split at ':', is that one directory) -/
+the specification's `fileHosts`, for a plain command-line path (see `dirname_is_dirOf`) -/
 theorem file_source_spec_partial (mode : LineMode) (fs : FS) (stdin file : Str) (h1 : file ≠ ['-'])
-    (hdir : listSplit [':'] (dirname file) = [WcollSpec.dirOf file])
+    (hp : PlainPath file) (hc : ':' ∉ WcollSpec.dirOf file)
     (hfs : FsOK mode.cap (WcollSpec.dirOf file) fs) :
     (readWcoll mode fs stdin file).1.exprs = (WcollSpec.fileHosts fs file).exprs ∧
     (readWcoll mode fs stdin file).1.nwarn = (WcollSpec.fileHosts fs file).skipped ∧
-    (readWcoll mode fs stdin file).1.fatal = (WcollSpec.fileHosts fs file).error := by
-  unfold readWcoll WcollSpec.fileHosts
-  rw [if_neg h1, hdir]
-  cases hlk : lookup fs file with
-  | none => exact ⟨rfl, rfl, rfl⟩
-  | some f =>
-    simp only
-    by_cases hrd : f.readable = true
-    · simp only [hrd, if_true]
-      exact file_hosts_spec_partial mode fs _ hfs f.content (hfs f (lookup_some_mem hlk).1 hrd)
-    · simp [hrd]
+    (readWcoll mode fs stdin file).1.fatal = (WcollSpec.fileHosts fs file).error :=
+  file_source_spec_partial' mode fs stdin file h1 (search_path_of_plain file hp hc) hfs
+
+/-- `get_file_path`: for every plain path (it does not end in a slash, its last slash is not
+doubled) glibc's `dirname` is the directory the specification means, and — when that directory holds
+no colon — the reader's search path is exactly that one directory -/
+theorem dirname_is_dirOf (p : Str) (hp : PlainPath p) :
+    dirname p = WcollSpec.dirOf p ∧
+    (':' ∉ WcollSpec.dirOf p → listSplit [':'] (dirname p) = [WcollSpec.dirOf p]) :=
+  ⟨dirname_eq_dirOf p hp, search_path_of_plain p hp⟩
+
+/-- ASSEMBLY REFINEMENT (opt.c against `WcollSpec.assemble`): if the `-w` / `-x` options stand for
+the sources `srcs` — plain words, `^file`, `-`, exclusion files, each in C10's domain — then the
+option processing including the WCOLL fallback yields the specification's result: same error status,
+same number of skip warnings and, without error, the same target expressions in the same order and
+the same exclusion expressions.  (`hcap`: the reader's buffer holds at least one byte.) -/
+theorem assemble_refines (mode : LineMode) (fs : FS) (hcap : ∀ n, mode.cap = some n → 0 < n)
+    (stdin : Str) (hstd : ContentOK mode.cap ['.'] stdin) (opts : List Opt)
+    (srcs : List WcollSpec.Source) (hargs : opts.flatMap optArgs = srcs.map argOf)
+    (hok : ∀ s ∈ srcs, SrcOK mode fs s) (env : Option Str)
+    (henv : ∀ f, env = some f → SrcOK mode fs (if f = ['-'] then .stdin else .file f)) :
+    (assembleOpts mode fs stdin opts env).fatal = (WcollSpec.assemble fs stdin srcs env).error ∧
+    (assembleOpts mode fs stdin opts env).nwarn = (WcollSpec.assemble fs stdin srcs env).skipped ∧
+    ((assembleOpts mode fs stdin opts env).fatal = false →
+      (assembleOpts mode fs stdin opts env).exprs = (WcollSpec.assemble fs stdin srcs env).exprs ∧
+      (assembleOpts mode fs stdin opts env).excl = (WcollSpec.assemble fs stdin srcs env).excluded) :=
+  assembleOpts_refines mode fs hcap stdin hstd opts srcs hargs hok env henv
+
+/-- `every ^file`: an exclusion file (`-x ^F`, or `-^F` inside a `-w` list) goes through the very
+same reader as a target file; its expressions go to the exclusion list, the target list is
+untouched, and an unreadable one is an error just the same -/
+theorem excluded_file_same_reader (mode : LineMode) (fs : FS) (st : St) (file : Str)
+    (hst : st.fatal = false) :
+    (argProcess mode fs st ('-' :: '^' :: file)) = absorb st true (readWcoll mode fs st.stdin file) ∧
+    ((readWcoll mode fs st.stdin file).1.fatal = false →
+      (argProcess mode fs st ('-' :: '^' :: file)).excl =
+        st.excl ++ (readWcoll mode fs st.stdin file).1.exprs ∧
+      (argProcess mode fs st ('-' :: '^' :: file)).exprs = st.exprs) ∧
+    ((readWcoll mode fs st.stdin file).1.fatal = true →
+      (argProcess mode fs st ('-' :: '^' :: file)).fatal = true) := by
+  have harg : argProcess mode fs st ('-' :: '^' :: file) =
+      absorb st true (readWcoll mode fs st.stdin file) := by
+    simp [argProcess, hst, isspaceC]
+  refine ⟨harg, fun h => ?_, fun h => ?_⟩
+  · rw [harg]; simp [absorb, h]
+  · rw [harg]; simp [absorb, h]
+
+/-- `-x LIST` is processed piece by piece as `-piece` (so `-x ^F` is `-^F`) -/
+theorem x_option_is_dash_args (mode : LineMode) (fs : FS) (st : St) (optarg : Str) :
+    optProcess mode fs st (.x optarg) =
+      ((listSplit [','] optarg).map ('-' :: ·)).foldl (argProcess mode fs) st := by
+  simp only [optProcess, xargProcess, List.foldl_map]
 
 /-- `F being looked up in the directory of the file named on the command line`: an include name that
 is not absolute and does not start with `./` or `../` can only resolve to that directory's entry —
@@ -237,6 +278,16 @@ def demoFS : FS :=
   [⟨"d/A".toList, true, "a1\n#include B\n#include C\na9\n".toList⟩,
    ⟨"d/B".toList, true, "b1\n#include C\n#include A\n".toList⟩,
    ⟨"d/C".toList, true, "c1\n#include B\n".toList⟩]
+
+example : PlainPath "t/u/A".toList := ⟨by decide, fun B name h hn => by
+  have : B = "t/u".toList := by
+    have h1 := rev_dropWhile_last_slash B name hn
+    rw [← h] at h1
+    have : ("t/u/A".toList).reverse.dropWhile (· != '/') = '/' :: ("t/u".toList).reverse := by decide
+    rw [this] at h1
+    have h2 := congrArg List.reverse (List.cons.inj h1).2
+    simpa using h2.symm
+  rw [this]; decide⟩
 
 example : (assemble shipped demoFS [] ["^d/A".toList] none).exprs =
     ["a1", "b1", "c1", "a1", "a9", "a9"].map String.toList ∧
